@@ -210,8 +210,9 @@ class Minimiser:
         return self.best
 
 
-def minimise(engine, script, violation):
-    m = Minimiser(engine, script, sig_class(violation))
+def minimise(engine, script, violation, quick=False):
+    # a violation that is already a recorded finding by oracle+class needs no deep shrinking
+    m = Minimiser(engine, script, sig_class(violation), *((80, 6.0) if quick else ()))
     best = m.run()
     return best, m.execs
 
@@ -253,6 +254,7 @@ def worker_main(args):
         "nontrivial_runs": 0,
     }
     seen_sig = set()
+    known = load_known()
 
     def add(d, key):
         for k, v in d.items():
@@ -300,7 +302,10 @@ def worker_main(args):
                     seen_sig.add(sc_key)
                     faulthandler.cancel_dump_traceback_later()
                     faulthandler.dump_traceback_later(300, exit=True)
-                    best, nexec = minimise(engine, sc, v)
+                    quick_min = any(k["property"] == prop and k["oracle"] == v["oracle"] and k.get("cls") == v["cls"]
+                                    and "script_regex" not in k and "detail_regex" not in k
+                                    for k in known.get("findings", []))
+                    best, nexec = minimise(engine, sc, v, quick=quick_min)
                     final = execute_script(engine, best)
                     if sig_class(final["violation"]) != sc_key:
                         raise HarnessError(
@@ -520,6 +525,11 @@ def run_batch(prop, tier, nruns=None, budget_s=None, workers=None, profile=None,
     for line in lines:
         print(line, flush=True)
 
+    probes_all = msum("probes")
+    discarded = sum(v for k, v in probes_all.items() if k.startswith("discarded-"))
+    if execs and discarded > 0.05 * execs:
+        print(f"HARNESS-ERROR {discarded} of {execs} executions were discarded as unbuildable")
+        return 2, None
     truncated = any(a["truncated"] for a in aggs)
     samples = [s for a in aggs for s in a["samples"]][:3]
     if not samples:
@@ -549,6 +559,7 @@ def run_batch(prop, tier, nruns=None, budget_s=None, workers=None, profile=None,
         "hashseeds": sorted({a["hashseed"] for a in aggs}),
         "real_components": list(engine.real_components),
         "stub_components": list(engine.stub_components),
+        "executions_discarded": discarded,
         "violations_known": n_known,
         "violations_new": n_new,
         "exhaustive": False,
